@@ -74,10 +74,10 @@ CHECKS = {
         category="other",
         technique="static analysis: MIR term extraction and sibling agreement across the per-kind generators, dominator/must-pass-through checks on the "
                   "legality filter, decision-table extraction, constant folding of castle mask/square terms for the 4 (side, colour) pairs against a geometry oracle",
-        text="Decides only the structural clauses (necessary conditions) G1-G10: generator coverage, piece-kind agreement, destination-set conjuncts, "
+        text="Decides only the structural clauses (necessary conditions) G1-G11: generator coverage, piece-kind agreement, destination-set conjuncts, "
              "every candidate filtered by try_as_legal_move whose Some is guarded by the king-safety test on the successor, castle path/check masks and "
              "king squares equal to geometry and wired to occupancy / opponent attacks under the matching right, colour-direction and promotion tables, "
-             "pawn capture offset pairing, en passant candidates, perft wiring. Equality of the generated move set with the FIDE rules over all positions "
+             "pawn capture offset pairing, en passant candidates, perft wiring, the generated list handed to the caller untouched (G11), plus the leaper-table geometry rules of C09. Equality of the generated move set with the FIDE rules over all positions "
              "and perft counts are NOT decided by static analysis.",
         design_ref="DESIGN.md section 4, C01",
         note=TB_COMMON + " Relies on C09 (attack tables) and C20 (move encoding). A sound legality fast path that bypasses the king-safety test would be reported (G4)."),
@@ -179,7 +179,7 @@ CHECKS = {
     "C12": dict(
         category="other",
         technique="static analysis: guard extraction for the 42 character arms of the SAN scanner, closure-capture resolution of the 8 field tests of MoveQuery::test with "
-                  "must-pass-through on every non-false return, reachability order of the scanner stages, writer call-sequence comparison",
+                  "must-pass-through on every non-false return, the tested query resolved to the caller's parameter in find/filter, reachability order of the scanner stages, writer call-sequence comparison",
         text="Decides structural clauses Q1-Q6: every scanner character sets the rank/file/piece it denotes (letters from the writer's own table), UCI promotion letters, "
              "each query field compared with the like-named move attribute and nothing but `false` returned before all 8 tests ran, right-to-left stage order with left-over "
              "rejection and Pawn default, castling by prefix (O-O-O before O-O), LAN and bestmove writers emitting origin, destination, lower-case promotion. Uniqueness "
